@@ -182,6 +182,9 @@ def check_origin(F, C, mod):
         return
     cats = [none()] + [some(x) for x in roundtrip.gen_values(F, "dep3::fields::OriginCategory")]
     origins = roundtrip.gen_values(F, "dep3::fields::Origin")
+    # free text may itself contain ", " (the category separator)
+    origins.append(("enum", "dep3::fields::Origin::Other", (symstr.mk([("atom", "text1", "word"), ("lit", ", "), ("atom", "text2", "word")]),)))
+    origins.append(("enum", "dep3::fields::Origin::Commit", (symstr.mk([("atom", "id1", "word"), ("lit", ", "), ("atom", "id2", "word")]),)))
     n = 0
     for c in cats:
         for o in origins:
@@ -202,4 +205,4 @@ def check_origin(F, C, mod):
             C.ob("C18/origin-roundtrip", name, got == want and len(outs) == len(got),
                  "format_origin gives %s; parse_origin of that yields %s" % (show_value(texts[0]), sorted(show_value(x) for x in got)), F.fn(pk)["sp"])
             n += 1
-    C.floor("C18/origin", n, 10, "origin (category, value) combinations")
+    C.floor("C18/origin", n, 20, "origin (category, value) combinations")
